@@ -1001,6 +1001,37 @@ def run_C10(ck):
                 lens = chunkings(rng, len(data), rng.choice(['whole', 'random', 'single']))
                 cases.append({'line': 'stream opt=rfh mem=%d calls=%s' % (m, stream_calls(data, lens)), 'meta': meta, 'base': base, 'true_out': s['out'], 'stream': True})
             ck.count('m_vs_need_' + ('lt' if m < need else 'eq' if m == need else 'gt'))
+    # the raw decoder takes the limit as a constructor argument; tiny dictionaries make need = dict after a few bytes
+    raw = []
+    reqs, metas = [], []
+    for k in range(40 if quick else 300):
+        lc, lp, pb = rand_props(rng)
+        d = rng.choice([1, 2, 5, 8, 64, 4096])
+        pbld = random_program(rng, rng.range(1, 60), d, lit_bias=2)
+        reqs.append('ref_payload lc=%d lp=%d pb=%d window=%d prog=%s' % (lc, lp, pb, d, pbld.text(True)))
+        metas.append(((lc, lp, pb), d, pbld.n))
+    for enc, (pr, d, T) in zip(ref_encode(reqs), metas):
+        if enc is None: raise InfraError('reference encoder rejected a C10 program')
+        need = min(d, T)
+        for m_ in sorted(set(x for x in [0, need - 1, need, need + 1, d] if x >= 0)):
+            raw.append({'line': 'raw_lzma lc=%d lp=%d pb=%d dict=%d size=none mem=%d ops=d:%s' % (pr[0], pr[1], pr[2], d, m_, hx(enc[0])),
+                        'meta': {'need': need, 'dict': d, 'T': T, 'm': m_, 'api': 'raw'}, 'raw_out': enc[1]})
+            ck.count('raw_m_vs_need_' + ('lt' if m_ < need else 'eq' if m_ == need else 'gt'))
+    run_both(ck, raw)
+    for c in raw:
+        ck.note_case(c['line'])
+        def oracle_raw(c):
+            m = c['meta']; parts = c['r'].get('res', '').split(';')
+            if 'panic' in c['r'].get('res', ''): return 'raw decoder panicked under a memory limit'
+            if len(parts) < 2: return None
+            v, out = parts[1].split(':')[1], unhx(parts[1].split(':')[2])
+            if m['need'] <= m['m']:
+                if v != 'ok' or out != c['raw_out']: return 'raw decoder: limit %d >= needed window %d but the stream was not decoded exactly' % (m['m'], m['need'])
+            else:
+                if v != 'err': return 'raw decoder: limit %d < needed window %d but decoding did not fail' % (m['m'], m['need'])
+                if not is_prefix(out, c['raw_out']): return 'raw decoder: output under a memory limit is not a prefix'
+            return None
+        judge(ck, c, ['res'], oracle_raw, 'both')
     run_both(ck, cases)
     for c in cases:
         if 'base' not in c:
@@ -1402,8 +1433,9 @@ def run_C16(ck):
                     # 'W' re-offers what a write did not take (like write_all, but stopping at Ok(0)); 'w' is a single call
                     calls.append('%s:%s' % ('W' if kind in ('overlong', 'valid') or rng.chance(1, 2) else 'w', hx(p))); calls.append('g')
                     if rng.chance(1, 6): calls.append('f')
+                    if rng.chance(1, 4): calls.append('o')
                 for _ in range(rng.range(1, 3)):
-                    calls.append('w:%s' % hx(rng.bytes(rng.range(1, 30)))); calls.append('g')
+                    calls.append('w:%s' % hx(rng.bytes(rng.range(1, 30)))); calls.append('g'); calls.append('o')
                 calls.append('x')
                 cases.append({'line': 'stream opt=%s calls=%s' % (sopt, ';'.join(calls)), 'meta': {'kind': kind, 'style': s['style'], 'n': s['n'], 'opt': sopt}, 'n': s['n'], 'style': s['style'],
                               'kind': kind, 'true_out': s['out'], 'valid_len': len(b)})
@@ -1430,6 +1462,9 @@ def run_C16(ck):
                 elif x.startswith('w:') or x.startswith('W:'):
                     if failed and x not in ('w:0', 'W:zero:0', 'W:ok:0'): return 'a write after a failed write returned %s instead of Ok(0)' % x
                     if x == 'w:err' or x.startswith('W:err'): failed = True
+                elif x.startswith('o:'):
+                    if failed and x != 'o:none': return 'get_output after a failed write still hands out the sink (%s)' % x
+                    if not failed and x != 'o:%d' % last_g: return 'get_output disagrees with the sink (%s vs %d bytes)' % (x, last_g)
                 elif x.startswith('f:'):
                     if failed and x != 'f:ok': return 'flush after a failed write returned %s' % x
                 elif x.startswith('x:'):
@@ -1441,7 +1476,7 @@ def run_C16(ck):
                 eaten = sum(int(x[2:]) for x in calls if x.startswith('w:') and x[2:].isdigit()) + sum(int(x.split(':')[2]) for x in calls if x.startswith('W:'))
                 if eaten > c['valid_len'] + 20: return 'writes kept consuming input (%d bytes) after the declared size was reached at byte %d' % (eaten, c['valid_len'])
             return None
-        judge(ck, c, ['res', 'out'], oracle, 'both')
+        judge(ck, c, ['res', 'out', 'fl'], oracle, 'both')
 
 # ------------------------------------------------------------------ C07: totality
 def mutate_bytes(rng, b):
